@@ -38,6 +38,11 @@ def doWF(vtChannels: np.ndarray,
         A tuple with vtOptP and mu, where vtOptP are the optimum powers,
         while mu is the water level.
     """
+    # Work with floating point gains: an integer (f.i. uint8) gain array
+    # must not dictate the type in which `Es * gains` is computed (it could
+    # silently wrap around)
+    vtChannels = np.asarray(vtChannels, dtype=float)
+
     # Sort Channels (descending order)
     vtChannelsSortIndexes = np.argsort(vtChannels)[::-1]
     vtChannelsSorted = vtChannels[vtChannelsSortIndexes]
